@@ -1,6 +1,7 @@
 package checks
 
 import (
+	"bytes"
 	"fmt"
 	"net"
 	"sort"
@@ -34,11 +35,13 @@ const (
 	c36TypeOnly  = "typeonly"  // type byte and nothing else
 	c36Garbage   = "garbage"   // type byte + truncated msgpack
 	c36NotAMap   = "notamap"   // type byte + msgpack string where a member is expected
+	c36TruncPort = "truncport" // a reply naming OUR address and port, cut off right after the port field (malformed)
+	c36Sparse    = "sparse"    // well-formed map with only the name key: a member without address (valid, not ours)
 )
 
 func c36valid(content string) bool {
 	switch content {
-	case c36Match, c36Match4, c36OtherAddr, c36OtherPort, c36Unknown:
+	case c36Match, c36Match4, c36OtherAddr, c36OtherPort, c36Unknown, c36Sparse:
 		return true
 	}
 	return false
@@ -54,7 +57,7 @@ func c36class(content string) string {
 		return "addr-form"
 	case c36OtherPort:
 		return "port"
-	case c36Unknown:
+	case c36Unknown, c36Sparse:
 		return "unknown"
 	}
 	return "malformed"
@@ -102,6 +105,15 @@ func c36payload(n *world.Node, content string) []byte {
 		return full[:len(full)/2]
 	case c36NotAMap:
 		return []byte{serf.VMsgConflictResponse, 0xa3, 'a', 'b', 'c'}
+	case c36TruncPort:
+		// cut just before the key of the field that follows Port: name, address and port have been read
+		full := serf.VEncode(serf.VMsgConflictResponse, &self)
+		if i := bytes.Index(full, []byte("\xa4Tags")); i > 0 {
+			return full[:i]
+		}
+		return full[:len(full)/2]
+	case c36Sparse:
+		return append([]byte{serf.VMsgConflictResponse, 0x81, 0xa4}, append([]byte("Name"), append([]byte{byte(0xa0 + len(n.Name))}, []byte(n.Name)...)...)...)
 	}
 	panic("c36: unknown content " + content)
 }
@@ -119,6 +131,8 @@ func c36kinds(thorough bool) []c36kind {
 		{name: "dup(match,otheraddr)", first: c36Match, dup: c36OtherAddr},
 		{name: "dup(otheraddr,match)", first: c36OtherAddr, dup: c36Match},
 		{name: "dup(garbage,match)", first: c36Garbage, dup: c36Match},
+		{name: c36TruncPort, first: c36TruncPort},
+		{name: c36Sparse, first: c36Sparse},
 	}
 	if thorough {
 		ks = append(ks,
